@@ -11,7 +11,7 @@ MAXFUN_MSG = "Objective has been called MAXFUN times"
 MAXRESTART_MSG = "Reached maximum number of unsuccessful restarts"
 SMALL_MSG = "Objective is sufficiently small"
 
-LEDGER_MODS = ['self.nf', 'self.nx', 'G.calls', 'G.pts', 'G.pending', 'G.nanflag', 'G.lastx', 'G.lastvals', 'G.lastk', 'G.offered', 'G.better', 'G.savedver']
+LEDGER_MODS = ['self.nf', 'self.nx', 'G.calls', 'G.pts', 'G.pending', 'G.nanflag', 'G.lastx', 'G.lastvals', 'G.lastk', 'G.offered', 'G.better', 'G.savedver', 'G.reeval']
 MODEL_GHOSTS = ['G.mver', 'G.gen', 'G.lastslot', 'G.nptver']
 
 
@@ -40,7 +40,7 @@ def build(repo):
                requires=['INV_ledger(self)', 'number_of_samples >= 1', 'not G.pending'],
                modifies=LEDGER_MODS, result=('evalvals', 'unk', 'int', 'optexit'),
                ghost_return=[('G.pending', 'result[2] > 0'), ('G.nanflag', None), ('G.lastx', 'x'), ('G.lastvals', 'result[0]'),
-                             ('G.lastk', 'result[2]'), ('G.offered', '0'), ('G.better', 'False'), ('G.savedver', 'G.savedver')],
+                             ('G.lastk', 'result[2]'), ('G.offered', '0'), ('G.better', 'False'), ('G.savedver', 'G.savedver'), ('G.reeval', 'G.reeval')],
                loops={'for:i#0': ['!nodefault:: True',
                           'num_samples_run == i_',
                           'self.nf == old(self.nf) + i_',
@@ -53,7 +53,7 @@ def build(repo):
                         'nx:: self.nx == old(self.nx) + (1 if result[2] > 0 else 0)',
                         'INV_ledger(self)',
                         'pending:: G.pending == (result[2] > 0)',
-                        ('a fresh evaluation is not yet an accepted improvement:: not G.better and G.savedver == old(G.savedver)', 'C04'),
+                        ('a fresh evaluation is not yet an accepted improvement:: not G.better and G.savedver == old(G.savedver) and G.reeval == old(G.reeval)', 'C04'),
                         ('latest evaluation recorded:: G.lastx == x and G.lastvals == result[0] and G.lastk == result[2] and G.offered == 0', 'C03'),
                         'no exit => all samples:: implies(isnone(result[3]), result[2] == number_of_samples)',
                         'exit flags:: implies(not isnone(result[3]), result[3].flag == EXIT_MAXFUN_WARNING or result[3].flag == EXIT_SUCCESS)',
@@ -77,9 +77,10 @@ def build(repo):
                          ('point is the one just evaluated (step + base == evaluated x):: ABS(G.gen, x) == G.lastx',) + T3,
                          ('residual is its first sample:: rvec == ROW(G.lastvals, 0)',) + T3,
                          ('evaluation number is its point number:: eval_num == G.pts',) + T3,
-                         ('(C04 ii) the incumbent record is overwritten only by an accepted improvement (ratio > 0) or after it was offered to the saved-point slot; '
+                         ('(C04 ii) the incumbent record is overwritten only by an accepted improvement (ratio > 0), after it was offered to the saved-point slot, or by the re-evaluation of '
+                          'its own point (A-N1\': check_and_fix_geometry picked the incumbent itself; a deterministic objective returns the same value); '
                           'any other replacement targets a new slot or a slot other than kopt:: '
-                          'k >= NPT(G.nptver) or k != KOPT(G.mver) or G.better or G.savedver == G.mver', 'C04', 'C08')],
+                          'k >= NPT(G.nptver) or k != KOPT(G.mver) or G.better or G.savedver == G.mver or G.reeval', 'C04', 'C08')],
                modifies=['G.pending', 'G.offered', 'G.mver', 'G.lastslot', 'G.nptver'],
                ghost_return=[('G.pending', 'False'), ('G.offered', '1'), ('G.mver', 'G.mver + 1'), ('G.lastslot', 'k'), ('G.nptver', 'G.nptver + 1')],
                ensures=['not G.pending', 'G.offered == 1', 'G.mver == old(G.mver) + 1', 'G.lastslot == k', 'G.nptver == old(G.nptver) + 1',
@@ -146,13 +147,14 @@ def build(repo):
 
     # ---------------------------------------------------------------- Controller methods that may evaluate
     common_req = ['INV_ledger(self)', 'not G.pending', 'every stored point has all its samples:: G.offered == G.lastk']
-    common_ens = ['INV_ledger(self)', 'no point left pending:: not G.pending',
+    NOREEVAL = 'no re-evaluation licence is left over:: not G.reeval'
+    common_ens = ['INV_ledger(self)', 'no point left pending:: not G.pending', 'no re-evaluation licence is left over:: not G.reeval',
                   ('every stored point has all its samples:: G.offered == G.lastk', 'C02', 'C03', 'C17'),
                   'exit flag is a run-time flag:: implies(not isnone($E), flag_ok($E))',
                   'not the max-restarts message:: implies(not isnone($E), $E.msg != "%s") or %s' % (MAXRESTART_MSG, '$SOFT'),
                   'self.nf >= old(self.nf)', 'self.nx >= old(self.nx)',
                   'MAXFUN => nf == maxfun:: implies(not isnone($E) and $E.flag == EXIT_MAXFUN_WARNING, self.nf == self.maxfun)']
-    common_inv = ['INV_ledger(self)', 'no point left pending:: not G.pending', 'self.nf >= old(self.nf)', 'self.nx >= old(self.nx)',
+    common_inv = ['INV_ledger(self)', 'no point left pending:: not G.pending', 'no re-evaluation licence is left over:: not G.reeval', 'self.nf >= old(self.nf)', 'self.nx >= old(self.nx)',
                   ('every stored point has all its samples:: G.offered == G.lastk', 'C02', 'C03', 'C17'), 'G.proj == old(G.proj)']
 
     def sub(c, exit_expr, q):
@@ -161,7 +163,7 @@ def build(repo):
 
     def method(q, res, exit_expr, extra_ens=(), extra_req=(), extra_mod=(), params=None, extra_tags=(), **kw):
         D.contract(q, tags=['C02', 'C04', 'C08', 'C10'] + list(extra_tags), params=dict({'number_of_samples': 'int'}, **(params or {})),
-                   requires=common_req + ['number_of_samples >= 1'] + list(extra_req),
+                   requires=common_req + ([] if q.endswith('geometry_step') else [NOREEVAL]) + ['number_of_samples >= 1'] + list(extra_req),
                    modifies=LEDGER_MODS + MODEL_GHOSTS + list(extra_mod), result=res,
                    ensures=[sub(c, exit_expr, q) for c in common_ens] + list(extra_ens),
                    ledger_inv=common_inv, **kw)
@@ -173,8 +175,12 @@ def build(repo):
     N2 = ('A-N2 (numeric): np.argsort returns distinct slots and the incumbent (distance 0) sorts first; a point that became the incumbent during this loop '
           'sits in a slot already visited:: knew != KOPT(G.mver)', 'C04')
     method('Controller.geometry_step', 'optexit', 'result', params={'knew': 'int'},
-           extra_req=[('(C04 ii) a geometry step never replaces the incumbent record unless it was offered to the saved-point slot:: knew != KOPT(G.mver) or G.savedver == G.mver', 'C04', 'C08')])
-    method('Controller.check_and_fix_geometry', ('bool', 'optexit'), 'result[1]', asserts={'before:Controller.geometry_step#1': [N1]})
+           extra_req=[('(C04 ii) a geometry step never replaces the incumbent record unless it was offered to the saved-point slot or the step re-evaluates the incumbent\'s own point (A-N1 prime):: knew != KOPT(G.mver) or G.savedver == G.mver or G.reeval', 'C04', 'C08')],
+           ghost_return=[('G.reeval', 'False')])
+    method('Controller.check_and_fix_geometry', ('bool', 'optexit'), 'result[1]',
+           # A-N1': no assumption prunes the state here.  When the furthest point IS the incumbent (its stored, unclipped step lies outside the shifted bounds), the geometry step
+           # re-evaluates the incumbent's own clipped point: the licence G.reeval says so, and the consumer's clause accepts an overwrite of kopt under it.
+           ghost_before={'Controller.geometry_step#1': [('G.reeval', 'knew == KOPT(G.mver)')]})
     method('Controller.add_new_direction_while_growing', 'optexit', 'result')
     FRESH = ('the model holds only x0 when initialisation starts:: NPT(G.nptver) == 1', 'C04')
     grow = lambda c: ('(C04 ii) initialisation fills new slots only: the model holds at most this many records so far:: NPT(G.nptver) <= i_ + %d' % c, 'C04')
@@ -225,17 +231,17 @@ def build(repo):
                params={'maxfun': 'int', 'nruns_so_far': 'int', 'nf_so_far': 'int', 'nx_so_far': 'int', 'npt': 'int',
                        'r0_avg_old': 'opt:val', 'objfun': 'cb:objfun', 'nsamples': 'cb:nsamples', 'h': 'opt:cb:h', 'x0': 'val',
                        'r0_nsamples_old': 'opt:int'},
-               requires=['G.calls == nf_so_far', 'G.pts == nx_so_far', '0 <= nx_so_far', 'nx_so_far <= nf_so_far',
+               requires=['not G.reeval', 'G.calls == nf_so_far', 'G.pts == nx_so_far', '0 <= nx_so_far', 'nx_so_far <= nf_so_far',
                          'nf_so_far <= maxfun', 'maxfun == G.maxfun', 'not G.pending', 'nruns_so_far >= 0', 'G.offered == G.lastk', 'G.rows >= 0',
                          'fresh evaluation needs budget:: implies(isnone(r0_avg_old), nf_so_far < maxfun)',
                          'implies(params("init.run_in_parallel"), params("init.random_initial_directions"))',
                          'parameter inside its range (established by the parameter check of solve):: params("restarts.hard.increase_ndirs_initial_amt") >= 0'],
                modifies=['G.calls', 'G.pts', 'G.pending', 'G.nanflag', 'G.restarts', 'G.lastx', 'G.lastvals', 'G.lastk', 'G.offered', 'G.proj',
-                         'G.ent', 'G.entjac', 'G.rows', 'G.better', 'G.savedver', 'G.fullinit'] + MODEL_GHOSTS + [
+                         'G.ent', 'G.entjac', 'G.rows', 'G.better', 'G.savedver', 'G.fullinit', 'G.reeval'] + MODEL_GHOSTS + [
                          'params[growing.full_rank.use_full_rank_interp]', 'params[growing.perturb_trust_region_step]',
                          'params[growing.delta_scale_new_dirns]'],
                result=('val', 'val', 'val', 'opt:val', 'int', 'int', 'int', 'int', 'exit', 'unk', 'int', 'opt:val'),
-               ledger_inv=['INV_ledger(control)', 'no point left pending:: not G.pending',
+               ledger_inv=['INV_ledger(control)', 'no point left pending:: not G.pending', 'no re-evaluation licence is left over:: not G.reeval',
                            ('every stored point has all its samples:: G.offered == G.lastk', 'C02', 'C03', 'C17'),
                            ('run accounting:: nruns_so_far == old(nruns_so_far) + G.restarts - old(G.restarts)', 'C02', 'C04', 'C08', 'C10', 'C18'),
                            'control.maxfun == maxfun', 'nruns_so_far >= 0', 'G.calls >= old(G.calls)',
@@ -281,7 +287,7 @@ def build(repo):
                         '0 <= result[6] and result[6] <= result[5]',
                         'calls only grow:: G.calls >= old(G.calls)',
                         'run accounting:: result[7] == old(nruns_so_far) + G.restarts - old(G.restarts) + 1',
-                        'not G.pending', 'result[7] >= old(nruns_so_far) + 1', 'G.restarts >= old(G.restarts)', 'G.offered == G.lastk', 'G.rows >= 0',
+                        'not G.pending', 'not G.reeval', 'result[7] >= old(nruns_so_far) + 1', 'G.restarts >= old(G.restarts)', 'G.offered == G.lastk', 'G.rows >= 0',
                         ('exit flag is a run-time flag:: flag_ok(result[8])', 'C07', 'C10'),
                         ('MAXFUN => nf == maxfun:: implies(result[8].flag == EXIT_MAXFUN_WARNING, result[5] == maxfun)', 'C10')])
 
@@ -290,7 +296,7 @@ def build(repo):
                params={'maxfun': 'opt:int', 'npt': 'opt:int', 'objfun': 'cb:objfun', 'nsamples': 'opt:cb:nsamples', 'h': 'opt:cb:h',
                        'x0': 'unk'},
                types={},
-               requires=['G.calls == 0', 'G.pts == 0', 'not G.pending', 'G.restarts == 0', 'G.offered == G.lastk'],
+               requires=['G.calls == 0', 'G.pts == 0', 'not G.pending', 'G.restarts == 0', 'G.offered == G.lastk', 'not G.reeval'],
                ghost_after_assign={'xmin': [('G.best', 'G.ent')], 'jacmin': [('G.bestjac', 'G.entjac')], 'objmin2': [('G.objnew', 'objmin2')]},
                ghost_before={'solve_main#1': [('G.maxfun', 'maxfun'), ('G.ran', 'False')],
                              'solve_main#2': [('G.restarts', 'G.restarts + 1'), ('G.objprev', 'objmin'), ('G.ran', 'True')],
@@ -299,7 +305,7 @@ def build(repo):
                loops={'for:i#0': [('columns 0..i-1 of the returned Jacobian have been divided by their scale, once, in order:: '
                                    'not isnone(jacmin) and jacmin == UNSC(EJ(G.bestjac), i_) and n >= 0', 'C11')],
                       'while#0': ['!nodefault:: True', 'nf == G.calls', 'nx == G.pts', '0 <= nx', 'nx <= nf', 'nf <= maxfun',
-                          'maxfun == G.maxfun', 'not G.pending', 'nruns == G.restarts + 1', 'last_successful_run >= 0', 'G.offered == G.lastk', 'G.rows >= 0',
+                          'maxfun == G.maxfun', 'not G.pending', 'not G.reeval', 'nruns == G.restarts + 1', 'last_successful_run >= 0', 'G.offered == G.lastk', 'G.rows >= 0',
                           'last_successful_run <= nruns', 'flag_ok(exit_info)',
                           ('best-so-far tuple is one whole entry:: xmin == EX(G.best) and rmin == ER(G.best) and objmin == EO(G.best) and '
                            'nsamples_min == ENS(G.best) and xmin_eval_num == EEN(G.best)', 'C03'),
